@@ -27,8 +27,11 @@ SUITES = {
                           "st_remove__s8_4a", "st_remove__s8_8g0", "st_remove__s8m0_4a", "st_remove_entry__s8_4one",
                           "st_lookup__s8_8g0", "st_lookup__u8_3t", "st_clear__s8_8g4",
                           "st_raw_replace_with__s8_8g0", "it_iter_mut__s8_4a",
-                          "zst_remove__old", "zst_remove__old2", "zst_insert__old", "en_raw_or_insert__u4f"])],
-        "thorough": [("km", ["st_*", "zst_*", "it_iter_mut__*", "it_values_mut__*", "en_raw_*", "en_vacant_insert__*"]),
+                          "zst_remove__old", "zst_remove__old2", "zst_insert__old", "en_raw_or_insert__u4f",
+                          # extend / from_iter go through reserve: no undocumented panic, contents kept
+                          "cap_reserve__s8_4a", "cap_reserve__s8_8g4"]),
+                  ("km-cnt", ["cnt_reserve__split"])],
+        "thorough": [("km-cnt", ["cnt_reserve__*", "cnt_try_reserve__*"]), ("km", ["cap_reserve__*", "st_*", "zst_*", "it_iter_mut__*", "it_values_mut__*", "en_raw_*", "en_vacant_insert__*"]),
                      ("km-rel", ["st_insert__s8_4a", "st_remove__s8_8g0", "st_raw_replace_with__s8_8g0"]),
                      ("km-r4", ["st_insert__s16_8", "st_insert__s8_8g0", "st_remove__s8_8g4"])],
     },
@@ -122,7 +125,10 @@ SUITES = {
         "thorough": [("km", ["se_*"])],
     },
     "C14": {
-        "quick": [("km", ["eq_same__s8_4a__u", "eq_differ__s8_4a__u", "eq_differ__u__s8_8g0", "eq_transitive"])],
+        "quick": [("km", ["eq_same__s8_4a__u", "eq_differ__s8_4a__u", "eq_differ__u__s8_8g0", "eq_transitive",
+                          # == walks one map and looks up in the other: it rests on "no key stored twice" (I3) and
+                          # cursor agreement (I2) being kept by the calls that rebuild or splice tables
+                          "cl_clone_from__s8_4a__s8_4a", "cl_clone__s8_8g4", "st_raw_replace_with__s8_8g0"])],
         "thorough": [("km", ["eq_*", "se_preds__*"])],
     },
     "C16": {
